@@ -169,6 +169,30 @@ def run(ctx):
             ctx.set("states[%s]" % label, ex.states)
             ctx.set("transitions[%s]" % label, ex.transitions)
             ctx.set("depth_completed[%s]" % label, ex.maxdepth)
+    # ---- the parity disk runs full in the middle of a history (per-file size limit of the tool's own test seam): the sync that cannot
+    # allocate the parity it needs must leave a true record behind, whatever its exit status
+    nfull = 0
+    for lv in (1, 2):
+        for limit in (2048, 3072, 4096, 6144):
+            cfg = Config(levels=lv, ndisks=2, parity_limit=limit)
+            hist = [("write", "d1", "anchor", 700, 0), ("write", "d2", "anchor", 700, 0), ("write", "d1", "a", 1500, 0), ("cmd", "sync"),
+                    ("write", "d2", "grow", 9000, 0), ("cmd", "sync"), ("write", "d1", "grow2", 12000, 0), ("cmd", "sync", "-F"),
+                    ("rm", "d2", "grow"), ("cmd", "sync"), ("rm", "d1", "grow2"), ("cmd", "sync")]
+            with labmod.Lab(cfg, seed=ctx.seed) as L:
+                done = []
+                for op in hist:
+                    r = X.apply_op(L, op)
+                    done.append(op)
+                    if op[0] != "cmd":
+                        continue
+                    nfull += 1
+                    tot_trans += 1
+                    ctx.nontrivial(("parity-full", lv, limit, len(done)))
+                    for v in X.c06(L, " ".join(map(str, op))):
+                        v["kind"] = "parity-full-" + v["kind"]
+                        ctx.violation("C06/%s" % v["kind"], "%s in %s (per-file parity limit %d) after %s" % (v["kind"], cfg.short(), limit, v["where"]),
+                                      dict(cfg=cfg.describe(), history=list(done), violation=v))
+    ctx.set("parity_full_commands", nfull)
     ctx.set("states", tot_states)
     ctx.set("transitions", tot_trans)
     ctx.set("evaluations", tot_trans)
